@@ -466,6 +466,12 @@ class REPEX_state:
                     + datetime.now().strftime(DATE_FORMAT)
                     + "\n"
                 )
+        # never start more jobs than there are steps left (a run that is
+        # restarted close to its end), their results would be dropped.
+        if self.cstep + self.cworker >= self.tsteps:
+            self.toinitiate = -1
+            return False
+
         if self.toinitiate > 0:
             if self.screen > 0:
                 logger.info(
